@@ -186,6 +186,5 @@ def run_case(case):
             if not kinds.fields_equal(g, f):
                 discs.append(Disc('fields', '%s %s: %r delivered as %r' % (framing, kind, f, g), _kf_codec(kind, f)))
     if len(fr._buffer) != 0 and len(got) == 1:
-        discs.append(Disc('buffer-left', '%s %s: %d bytes left in the receive buffer after one whole frame' % (framing, kind, len(fr._buffer)),
-                          _kf_framing(framing, kind, f, pdu, uid, 'buffer-left')))
+        labels.append('bytes-left-buffered')     # not part of the property statement: recorded, not judged (C06 sees the consequences)
     return Outcome(discs, labels, nt)
